@@ -30,6 +30,8 @@ def residual_nnls(matrix: ArrayLike, data: ArrayLike) -> tuple[ArrayLike, ArrayL
     """
     # scipy's nnls stops on an absolute tolerance: solve the problem normalised to unit column
     # and data norms so that the solution does not depend on the scale of matrix and data
+    matrix = np.asarray(matrix, dtype=np.float64)
+    data = np.asarray(data, dtype=np.float64)
     column_norms = np.linalg.norm(matrix, axis=0)
     column_norms[column_norms == 0] = 1
     data_norm = np.linalg.norm(data) or 1.0
